@@ -23,8 +23,10 @@ static void arena_free(void) {
 }
 
 static var mk_stack(var type, const void* data, size_t sz) {
-  char* buf = keep(calloc(1, sizeof(struct Header) + sz + 8));
-  var o = header_init(buf, type, AllocStack);
+  /* 16 bytes of padding in front: if the library ever passes this "stack" object to free(), the pointer
+  ** is not the start of a malloc block and ASan reports it at once */
+  char* buf = keep(calloc(1, 16 + sizeof(struct Header) + sz + 8));
+  var o = header_init(buf + 16, type, AllocStack);
   memcpy(o, data, sz);
   return o;
 }
@@ -193,7 +195,7 @@ static var arg(const char* a) {
   return NULL;
 }
 static var arg_tuple(char** w, int n) {
-  var* items = keep(calloc(n + 1, sizeof(var)));
+  var* items = (var*)((char*)keep(calloc(1, 16 + (n + 1) * sizeof(var))) + 16);   /* not a block start: see mk_stack */
   for (int i = 0; i < n; i++) { items[i] = arg(w[i]); }
   items[n] = Terminal;
   struct Tuple t = { items };
@@ -374,8 +376,8 @@ static void do_op(char** w, int n) {
     else if (w[2][0] is 'r' and w[2][1] is 'a') { r = new_raw_with(t, args); }
     else if (w[2][0] is 'r') { r = new_root_with(t, args); }
     else if (w[2][0] is 's') {            /* stack-class object, constructed in place */
-      char* buf = keep(calloc(1, sizeof(struct Header) + size(t) + 8));
-      r = construct_with(header_init(buf, t, AllocStack), args);
+      char* buf = keep(calloc(1, 16 + sizeof(struct Header) + size(t) + 8));
+      r = construct_with(header_init(buf + 16, t, AllocStack), args);
     } else { harness_bug("bad class"); r = NULL; }
     S[d] = r; fputs("new", o);
   }
@@ -420,6 +422,10 @@ static void do_op(char** w, int n) {
   else if (OP("delraw")) { int d = slotno(w[1]); var x = S[d]; S[d] = NULL; del_raw(x); }
   else if (OP("delroot")) { int d = slotno(w[1]); var x = S[d]; S[d] = NULL; del_root(x); }
   else if (OP("delkeep")) { del(arg(w[1])); }          /* del without forgetting the pointer */
+  else if (OP("delrawkeep")) { del_raw(arg(w[1])); }
+  else if (OP("delrootkeep")) { del_root(arg(w[1])); }
+  else if (OP("deallocraw")) { dealloc_raw(arg(w[1])); }
+  else if (OP("stup")) { S[slotno(w[1])] = arg_tuple(w + 2, n - 2); fputs("stup", o); }   /* stack-class Tuple, like tuple(...) */
   else if (OP("dealloc")) { dealloc(arg(w[1])); }
   else if (OP("destruct")) { destruct(arg(w[1])); }
   else if (OP("zero")) { S[slotno(w[1])] = NULL; }
